@@ -292,7 +292,23 @@ func genC12(tier string) []*Scenario {
 
 func init() {
 	scenarioGens["C12"] = genC12
+	replayers["C12values"] = func(path, prop string, payload map[string]interface{}) int {
+		f, _ := c12ValueKinds()
+		for _, x := range f {
+			fmt.Printf("VIOLATION property=C12 replay=%s\n  %s\n  %s\n", path, x.Signature, x.Detail)
+		}
+		if len(f) > 0 {
+			return 1
+		}
+		fmt.Println("no violation")
+		return 0
+	}
 	checks["C12"] = func(rc *runCtx) int {
+		extraFindings = func(cov map[string]interface{}) []Finding {
+			f, n := c12ValueKinds()
+			cov["value_kind_scripts_compared_between_twins"] = n
+			return f
+		}
 		return runE1Check(rc, []string{
 			"both twins are driven in lock-step by the same event sequence under one virtual clock; every return value, callback ledger, Items/Range multiset, Count/Size, DefaultExpiration() and the physical contents are compared pairwise",
 			"alphabets: the C01 call alphabet (to the fixpoint of the canonical state space, with and without callbacks, with nil values) and the C09 TTL alphabet from every constructor variant (depth bounded); Map vs MapOf[string,interface{}] over all single-key calls on 2 keys with nil and non-nil values plus bulk insert/delete macro events crossing grow/shrink thresholds",
